@@ -1459,6 +1459,8 @@ class C05(Prop):
             decls = case.split()[9:]
             if i < len(decls) and decls[i].split(",")[1] == "0":
                 return "unbounded-array-not-bound"
+        if "+N" in case and why.startswith("metadata lists a binding name twice"):
+            return "resources-in-different-namespaces-share-a-reflected-name"
         # Metal renames a resource whose name is reserved there (fragment -> fragment_0); the metadata keeps the declared name
         m = re.match(r"argument buffer member (\w+?)_(\d+) has no metadata entry", why)
         if m and case.split()[0] == "Msl" and case.split()[3].endswith("+R") and m.group(1) in c05ref.RENAMED:
@@ -1562,6 +1564,12 @@ class C04(Prop):
             if re.search(r"redefinition of '(\w+)' \| template<(?:typename \w+, )*typename \1(?:, typename \w+)*, typename \1\b", impl) or re.search(r"redefinition of '(\w+)' \| template<typename \1, typename \1", impl):
                 return "template-parameters-named-after-one-struct-twice"
             src = self._source(case)
+            # modifiers that reach a restricted position through a typedef are written out in place
+            m = re.search(r"modifier '(volatile|const)' is not valid on a (global variable|function return|constant buffer member|field)", impl)
+            if src and m and re.search(r"\btypedef\b[^;]*\b%s\b" % m.group(1), src):
+                return "modifier-through-typedef-written-in-a-restricted-position"
+            if src and "invalid type declarator modifier" in impl and re.search(r"sizeof\(\w+(\[\d*\])+\)", impl) and re.search(r"\bsizeof\s*\(\s*[a-z_]\w*(\.\w+)*\s*\)", src):
+                return "sizeof-of-an-array-expression"
             if src and "no matching function for call to" in impl and re.search(r"\b\w+\s*\([^(){};]*=[^(){};]*\)\s*;", src):
                 return "default-argument-on-forward-declaration"
             m = re.search(r"'(\w+)' was not declared in this scope", impl)
@@ -1771,6 +1779,8 @@ class C03(Prop):
         if w[0] == "W":
             if impl.startswith("IRFAULT"):
                 return "the IR's own typing rules fail: " + impl[8:300]
+            if impl.startswith("TYPEFAULT"):
+                return "the type checker built a node whose type its own consistency assertion rejects: " + impl[10:300]
             if impl.startswith("IR ") and model is not None:
                 if model.startswith("ILL"):
                     return "accepted program with ill-typed IR: " + model[:400]
